@@ -75,7 +75,7 @@ def run(ctx, replay=None):
         "input size class) for correspondence and by (oracle, branch) for the brute-force search"
     )
     NEX = ctx.scale(4, 6)  # exhaustive bound
-    NR = ctx.scale(3000, 60000)
+    NR = ctx.scale(3000, 30000)
 
     # ---------------- corpus first
     # (past minimized disagreements live in corpus/C13/*.json as {"family","request"})
